@@ -1,0 +1,107 @@
+use rusty_common::*;
+use rusty_parser::*;
+
+use super::post_conversion_linter::PostConversionLinter;
+use crate::core::{LintError, LintErrorPos};
+
+/// A whole array (`A` or `A()`) is not a value.
+///
+/// It can only be passed to a user defined SUB or FUNCTION (the parameter
+/// check decides if it is accepted) or named as the first argument of
+/// `LBOUND` / `UBOUND` / `VARPTR` / `VARSEG`. Anywhere else (a `PRINT` item, an operand,
+/// the owner of a property, an argument of another built-in) it is a type mismatch.
+///
+/// This linter runs after the linters of the calls, so that their more
+/// specific errors take precedence.
+pub struct WholeArrayLinter;
+
+fn is_whole_array(expr: &Expression) -> bool {
+    match expr {
+        Expression::ArrayElement(_, args, _) => args.is_empty(),
+        Expression::Variable(_, ExpressionType::Array(_)) => true,
+        _ => false,
+    }
+}
+
+impl WholeArrayLinter {
+    /// Visits call arguments, letting whole arrays through at the positions
+    /// where the callee may take an array.
+    fn visit_call_args<F>(&mut self, args: &Expressions, may_be_array: F) -> Result<(), LintErrorPos>
+    where
+        F: Fn(usize) -> bool,
+    {
+        for (index, arg) in args.iter().enumerate() {
+            if may_be_array(index) && is_whole_array(&arg.element) {
+                continue;
+            }
+            self.visit_expression(arg)?;
+        }
+        Ok(())
+    }
+}
+
+impl PostConversionLinter for WholeArrayLinter {
+    fn visit_sub_call(&mut self, sub_call: &SubCall, _pos: Position) -> Result<(), LintErrorPos> {
+        let (_, args) = sub_call.into();
+        self.visit_call_args(args, |_| true)
+    }
+
+    fn visit_print(&mut self, print: &Print) -> Result<(), LintErrorPos> {
+        if let Some(f) = &print.format_string {
+            self.visit_expression(f)?;
+        }
+        for print_arg in &print.args {
+            if let PrintArg::Expression(e) = print_arg {
+                self.visit_expression(e)?;
+            }
+        }
+        Ok(())
+    }
+
+    fn visit_expression(&mut self, expr_pos: &ExpressionPos) -> Result<(), LintErrorPos> {
+        if is_whole_array(&expr_pos.element) {
+            return Err(LintError::TypeMismatch.at(expr_pos));
+        }
+        match &expr_pos.element {
+            Expression::FunctionCall(_, args) => self.visit_call_args(args, |_| true),
+            Expression::BuiltInFunctionCall(
+                BuiltInFunction::LBound
+                | BuiltInFunction::UBound
+                | BuiltInFunction::VarPtr
+                | BuiltInFunction::VarSeg,
+                args,
+            ) => self.visit_call_args(args, |index| index == 0),
+            Expression::Property(left_side, _, _) => {
+                if is_whole_array(left_side) {
+                    Err(LintError::TypeMismatch.at(expr_pos))
+                } else {
+                    self.visit_nested_expressions(&expr_pos.element)
+                }
+            }
+            _ => self.visit_nested_expressions(&expr_pos.element),
+        }
+    }
+}
+
+#[cfg(test)]
+mod tests {
+    use crate::assert_linter_err;
+    use crate::core::LintError;
+
+    #[test]
+    fn cannot_print_whole_array() {
+        assert_linter_err!("DIM N(1 TO 3)\nPRINT N()", LintError::TypeMismatch, 2, 7);
+        assert_linter_err!("DIM N(1 TO 3)\nPRINT N", LintError::TypeMismatch, 2, 7);
+        assert_linter_err!("DIM N(1 TO 3)\nPRINT (N())", LintError::TypeMismatch, 2, 8);
+    }
+
+    #[test]
+    fn cannot_assign_whole_array() {
+        assert_linter_err!("DIM N(1 TO 3)\nX = N()", LintError::TypeMismatch, 2, 5);
+    }
+
+    #[test]
+    fn cannot_line_input_into_whole_array() {
+        assert_linter_err!("DIM N$(1 TO 3)\nLINE INPUT N$()", LintError::TypeMismatch, 2, 12);
+    }
+}
